@@ -15,6 +15,8 @@ def owners(tag, kind):
         out.add("C14")   # the count octet and the bitrate words of MarshalTo are REMB coding
     if kind == "REMB" and tag == "C18:packet_modified":
         out.add("C14")   # a read-only call that rewrites the decoded Bitrate: the packet no longer holds mantissa x 2^exponent
+    if kind == "XR" and tag == "C18:parts_of_a_packet_share_memory":
+        out.add("C15")   # blocks "decode ... independently of their neighbours"
     if kind == "XR" and base in ("C02", "C03", "C04"):
         out.add("C15")
     if (kind in ("NACK", "FIR") and base in ("C02", "C03", "C04")) or (kind == "SLI" and tag in ("C02:roundtrip_value", "C04:value")):
